@@ -88,6 +88,23 @@ SPEC = {
  "C14e": ("itest", "octo-squirrel", "c14_socks5_name_lengths", None, False),
  "C15e": ("itest", "octo-squirrel-server", "peer_reset_delivery", None, True),
  "C16e": ("itest", "octo-squirrel-server", "c16_cipher_required", None, True),
+ # round 6
+ "C01f": ("itest", "octo-squirrel-client", "c01f_upload_then_close", None, True),
+ "C03f": ("itest", "octo-squirrel", "c03f_vmess_masking_padding", None, False),
+ "C12f": ("itest", "octo-squirrel", "c12_udp_2022_server_nonce", None, False),
+ "C02f": ("itest", "octo-squirrel", "vmess_udp_boundaries", None, False),
+ "C04f": ("itest", "octo-squirrel", "c04f_legacy_segmentation", None, False),
+ "C05f": ("itest", "octo-squirrel", "c05f_vmess_chunk_deletion", None, False),
+ "C06f": ("itest", "octo-squirrel-server", "c06_vmess_unset_user_slot", None, True),
+ "C07f": ("itest", "octo-squirrel", "socks5_greeting_methods", None, False),
+ "C08f": ("itest", "octo-squirrel-server", "c08_short_datagram", None, True),
+ "C09f": ("itest", "octo-squirrel", "c09f_udp_cipher_cache", None, False),
+ "C10f": ("itest", "octo-squirrel-server", "vmess_token_window", None, True),
+ "C11f": ("itest", "octo-squirrel-server", "c11_udp_replay_after_relay_restart", None, True),
+ "C13f": ("itest", "octo-squirrel-client", "socks5_ipv6_target", None, True),
+ "C14f": ("itest", "octo-squirrel", "c14_non_ascii_domain", None, False),
+ "C15f": ("itest", "octo-squirrel-server", "c15_release_after_target_reset", None, True),
+ "C16f": ("itest", "octo-squirrel-server", "c16_user_key_length", None, True),
 }
 
 
